@@ -2,6 +2,8 @@
 pub mod selftest;
 pub mod c01;
 pub mod c03;
+pub mod c05;
+pub mod c07;
 
 use serde_json::Value;
 
@@ -10,6 +12,9 @@ pub fn run(id: &str, tier: &str) -> i32 {
         "C01" => c01::run(tier, false),
         "C10" => c01::run(tier, true),
         "C03" => c03::run(tier),
+        "C05" => c05::run(tier),
+        "C07" => c07::run(tier, "C07"),
+        "C08" => c07::run(tier, "C08"),
         _ => {
             eprintln!("MACHINERY unknown property {}", id);
             2
@@ -50,6 +55,8 @@ fn replay_one(id: &str, v: &Value) -> Option<String> {
     match id {
         "C01" | "C10" => c01::replay(v, id == "C10"),
         "C03" => c03::replay(v),
+        "C05" => c05::replay(v),
+        "C07" | "C08" => c07::replay(v, id),
         _ => Some(format!("no replay driver for {}", id)),
     }
 }
